@@ -28,6 +28,7 @@ func runC07(c *Ctx) {
 		return
 	}
 	c.W = w
+	mirror := StartMirror(c, w, "r1")
 	qs := []int{1, 2, 3, 8}
 	ns := g.Range(3, 7)
 	tc := TrafficCfg{NSess: ns, OpsPerSess: g.Range(6, 18), Faults: true, Timeouts: g.Bool(), Cancels: g.Bool(), Meta: true, Kills: rc.EnableMetaKill && g.Chance(1, 3)}
@@ -223,6 +224,7 @@ func runC07(c *Ctx) {
 	}
 	CheckDisclosure(c, clients, rc.AllowDisclose)
 	CheckOrderingLossy(c, clients, lossy)
+	mirror.Check(c, w)
 	CloseAll(c, w, false)
 }
 
